@@ -13,7 +13,7 @@ extern "C" {
 struct c15_iodim { ptrdiff_t n, is, os; };
 struct c15_state_t {
 	int enabled;                 /* record only while the harness says so */
-	int nplan, nexec, ndestroy;
+	int nplan, nexec, ndestroy, nother;
 	int rank, hrank;
 	struct c15_iodim dims[C15_MAXRANK], hdims[C15_MAXRANK];
 	void* plan_in;
@@ -25,8 +25,14 @@ struct c15_state_t {
 	void* exec_in;
 	void* exec_out;
 	void* destroyed;
-	char order[32];              /* 'p' plan, 'x' execute, 'd' destroy, in call order */
+	char order[32];              /* 'p' plan, 'x' execute, 'd' destroy, 'o' any other FFTW planner/execute entry, in call order */
 	int norder;
+	/* buffers to watch across the planning call: after the real fftw_plan_guru64_dft returns, watch_ptr[k] must
+	   still equal watch_snap[k] on watch_bytes[k] bytes; bit k of plan_touched is set otherwise */
+	const void* watch_ptr[2];
+	const void* watch_snap[2];
+	size_t watch_bytes[2];
+	unsigned plan_touched;
 };
 extern struct c15_state_t c15_state;
 void c15_reset(void);
